@@ -21,6 +21,10 @@ use crate::{
 
 #[derive(Clone, Debug, Serialize, Deserialize, PartialEq)]
 pub struct Phase {
+  /// before the calls, continue with a clone of the value (`r = r.clone()`):
+  /// the result must depend on the calls only, not on the clone in between
+  #[serde(default)]
+  pub fork: bool,
   /// mutating calls by the owner (exclusive access)
   pub calls: Vec<ReplCall>,
   /// observers: per simulated thread a list of ops on the shared value
@@ -111,6 +115,11 @@ pub fn check_case(case: &C05Case, keep_trace: bool) -> C05Result {
   };
 
   for (pi, phase) in case.phases.iter().enumerate() {
+    if phase.fork {
+      counters.inc("probe:continued_on_a_clone");
+      let c = r.clone();
+      r = c;
+    }
     for c in &phase.calls {
       // probes
       if all_calls.iter().any(|p| p.start == c.start && p.end == c.end) {
@@ -321,7 +330,11 @@ impl C05 {
       let threads = (0..n_threads)
         .map(|_| (0..1 + rng.usize_below(3)).map(|_| gen_observer(&mut rng)).collect())
         .collect();
-      phases.push(Phase { calls, threads });
+      phases.push(Phase {
+        fork: ph > 0 && rng.chance(200),
+        calls,
+        threads,
+      });
     }
     let knobs = Knobs::draw(&mut rng);
     C05Case {
@@ -384,6 +397,11 @@ fn case_shrinks(c: &C05Case) -> Vec<C05Case> {
     }
   }
   for p in 0..c.phases.len() {
+    if c.phases[p].fork {
+      let mut x = c.clone();
+      x.phases[p].fork = false;
+      out.push(reset(x));
+    }
     for i in 0..c.phases[p].calls.len() {
       let mut x = c.clone();
       x.phases[p].calls.remove(i);
@@ -525,7 +543,7 @@ impl Property for C05 {
     (serde_json::to_value(&cur).unwrap(), from)
   }
   fn rule(&self) -> String {
-    "case = (inner tree, 1-4 phases, knobs) from splitmix(VERIF_SEED, run index). A phase = 0-4 mutating calls by the owner (insert / replace / *_with_enforce; positions from the char boundaries of the inner text plus positions beyond the end; deliberately colliding (start,end) keys, nesting, overlap, all enforce values) followed by an observation phase in which 1-3 simulated threads share &ReplaceSource and call source, rope, buffer, size, to_writer(fault plan), map, hash, stream (also cancelled), clone-then-observe under a seeded schedule. Every text-bearing answer must equal the 12-line splice model applied to all calls so far. distinct_nontrivial = distinct histories with >= 2 replacements and a mutation after an observation phase.".into()
+    "case = (inner tree, 1-4 phases, knobs) from splitmix(VERIF_SEED, run index). A phase = optionally continuing on a clone of the value, then 0-4 mutating calls by the owner (insert / replace / *_with_enforce; positions from the char boundaries of the inner text plus positions beyond the end; deliberately colliding (start,end) keys, nesting, overlap, all enforce values) followed by an observation phase in which 1-3 simulated threads share &ReplaceSource and call source, rope, buffer, size, to_writer(fault plan), map, hash, stream (also cancelled), clone-then-observe under a seeded schedule. Every text-bearing answer must equal the 12-line splice model applied to all calls so far. distinct_nontrivial = distinct histories with >= 2 replacements and a mutation after an observation phase.".into()
   }
   fn assumptions(&self) -> Vec<String> {
     vec![
